@@ -235,6 +235,18 @@ func nbtByteBool(v any) (bool, bool) {
 		if v == 0 || v == 1 {
 			return v == 1, true
 		}
+	case int8:
+		if v == 0 || v == 1 {
+			return v == 1, true
+		}
+	case int16:
+		if v == 0 || v == 1 {
+			return v == 1, true
+		}
+	case int32:
+		if v == 0 || v == 1 {
+			return v == 1, true
+		}
 	case int64:
 		if v == 0 || v == 1 {
 			return v == 1, true
@@ -340,8 +352,66 @@ func sliceToSNBT(s []any, b *strings.Builder) error {
 }
 
 // BinaryTagToJSON converts a binary tag to JSON.
+//
+// The tag is decoded directly (not via its SNBT form): SNBT does not quote strings such
+// as "", "123" or "true", so going through it would turn those texts into null, numbers
+// and booleans, and a bare string tag with a space in it would keep its SNBT quotes.
 func BinaryTagToJSON(tag *nbt.RawMessage) (json.RawMessage, error) {
-	return SnbtToJSON(tag.String())
+	if tag.Type == nbt.TagEnd {
+		return json.RawMessage(`""`), nil
+	}
+	var v any
+	if err := tag.Unmarshal(&v); err != nil {
+		return nil, fmt.Errorf("error decoding binary tag: %w", err)
+	}
+	v = jsonValue(v)
+	normalizeComponentStyleBooleans(v)
+	j, err := json.Marshal(v)
+	if err != nil {
+		return nil, fmt.Errorf("error marshalling binary tag to json: %w", err)
+	}
+	return j, nil
+}
+
+// jsonValue turns a value decoded from NBT into what encoding/json marshals as the
+// equivalent JSON value (strings converted from Java's modified UTF-8, typed arrays as
+// arrays of numbers).
+func jsonValue(v any) any {
+	switch v := v.(type) {
+	case string:
+		return decodeCESU8(v)
+	case map[string]any:
+		out := make(map[string]any, len(v))
+		for k, child := range v {
+			out[decodeCESU8(k)] = jsonValue(child)
+		}
+		return out
+	case []any:
+		for i, child := range v {
+			v[i] = jsonValue(child)
+		}
+		return v
+	case []byte:
+		out := make([]any, len(v))
+		for i, b := range v {
+			out[i] = int8(b)
+		}
+		return out
+	case []int32:
+		out := make([]any, len(v))
+		for i, n := range v {
+			out[i] = n
+		}
+		return out
+	case []int64:
+		out := make([]any, len(v))
+		for i, n := range v {
+			out[i] = n
+		}
+		return out
+	default:
+		return v
+	}
 }
 
 // SnbtToBinaryTag converts a stringified NBT to binary tag.
